@@ -356,10 +356,7 @@ Definition module_codec : icodec mmodule := {|
     let nlen := 4 + 2 * zlen (md_name m) in
     vtuple [VInt (md_base m); VInt (md_size m); VInt (md_checksum m); VInt (md_time m); VInt off;
             varr (md_ver m);
-            match md_cv m with
-            | CvNone => vloc 0 0
-            | c => vloc (zlen (enc_cv LE c)) (off + nlen)
-            end;
+            vloc (zlen (enc_cv LE (md_cv m))) (off + nlen);     (* size 0 = no CodeView record *)
             vloc (fst (md_misc m)) (snd (md_misc m));
             varr (firstn 2 (md_res m)); varr (skipn 2 (md_res m))];
   ic_read := fun e all v =>
@@ -508,14 +505,15 @@ Definition enc_misc (e : endian) (off : Z) (m : Z * list Z) : section :=
   | None => (0, [])
   end.
 (* the largest revision that fits is read *)
+Definition misc_try (e : endian) (bs : list Z) (k : Z) : option (Z * list Z) :=
+  if lsize (misc_layout k) <=? zlen bs
+  then match dec e (misc_layout k) bs with Some (v, _) => Some (k, vflat v) | None => None end
+  else None.
 Definition dec_misc (e : endian) (all bs : list Z) : option (Z * list Z) :=
-  let try k := if lsize (misc_layout k) <=? zlen bs
-               then match dec e (misc_layout k) bs with Some (v, _) => Some (k, vflat v) | None => None end
-               else None in
-  match try 5 with Some r => Some r | None =>
-  match try 4 with Some r => Some r | None =>
-  match try 3 with Some r => Some r | None =>
-  match try 2 with Some r => Some r | None => try 1 end end end end.
+  match misc_try e bs 5 with Some r => Some r | None =>
+  match misc_try e bs 4 with Some r => Some r | None =>
+  match misc_try e bs 3 with Some r => Some r | None =>
+  match misc_try e bs 2 with Some r => Some r | None => misc_try e bs 1 end end end end.
 
 (* ------------------------------------------------------------------ the dump *)
 Record model := {
